@@ -134,7 +134,14 @@ def apply_path(input, context, path="$", throw_exception_on_failed_match=True):
         raise ParameterPathFailure("{} must be a JSONPath".format(path))
     if path.startswith("$$"):  # Use Context object, not input
         path = path[1:]  # Strip leading "$" from context path
-        raw_result = apply_jsonpath(context, path, throw_exception_on_failed_match)
+        """
+        Copy what was selected: the Context Object is updated in place as the
+        execution moves from state to state, so a reference into it would
+        change after it had been selected.
+        """
+        raw_result = copy.deepcopy(
+            apply_jsonpath(context, path, throw_exception_on_failed_match)
+        )
         if path == "$.Task.Token":
             """
             If the query is for a TaskToken we base64 result to make it "opaque".
